@@ -72,12 +72,22 @@ def cases(tier, rng):
             for root in ROOTS[:2]:
                 yield {'root': root, 'chain': [first, dict(d, nc=['~', '``'])]}
                 yield {'root': root, 'chain': [dict(d, nc=['~'])]}
+    # states obtained from a walker while its state-deriving methods are used in between (oracle only)
+    WOPS = [['nodes', 0, ']'], ['nodes', 1, ')'], ['nodes', 0, '>'], ['nodes', 0, '}'], ['nodes', 0, ['<', '>']], ['group', 0, '['], ['group', 1, '('],
+            ['opt', 0], ['opt', 2], ['token', 0, ['[', ']']], ['token', 1, ['<', '>']], ['expr', 0]]
+    for s in ['[a] b]', 'x[3]{y}) z>', '(p) [q] <r>', '\\sqrt[3]{x}] )', ' [a', '{[}]']:
+        for op in WOPS:
+            yield {'root': {}, 'chain': [], 's': s, 'wops': [op]}
+        for _ in range(12 if tier == 'quick' else 120):
+            yield {'root': {}, 'chain': [], 's': s, 'wops': [rng.choice(WOPS) for _ in range(rng.randint(2, 4))]}
 
 def enc_chain(chain):
     # 'nc' (a NEW latex_context object given in the same call) is not a field of the model's parsing state
     return '/'.join(psdesc.enc_desc({k: v for k, v in d.items() if k != 'nc'}) for d in chain)
 
 def to_line(c):
+    if c.get('wops') is not None:
+        return None
     # bug flag F: the model of the repaired code
     return '\t'.join(['PS', 'F', psdesc.enc_desc(c['root']), enc_chain(c['chain'])])
 
@@ -95,8 +105,50 @@ def tokens(ps, s):
             break
     return ' '.join(out)
 
+def run_walker(c):
+    """states that come from a LatexWalker (make_parsing_state, sub_context chains on it) while the walker's documented
+    methods that derive states internally are used in between (legacy get_latex_nodes with a stop brace, braced groups with
+    other delimiters, optional arguments, get_token with extra brace characters): none of them alters a state it derives
+    from, and every state obtained behaves like a fresh one with the same field values"""
+    import copy
+    from pylatexenc import latexwalker
+    from pylatexenc.latexnodes import ParsingState
+    s = c['s']
+    w = latexwalker.LatexWalker(s, tolerant_parsing=True)
+    root = w.make_parsing_state()
+    states = [('make_parsing_state()', root)]
+    snap = lambda ps: (psdesc.show_fields(ps), psdesc.show_tables(ps), copy.deepcopy(dict((k, v) for k, v in ps.get_fields().items() if k != 'latex_context')))
+    before = snap(root)
+    for op in c['wops']:
+        try:
+            if op[0] == 'nodes': w.get_latex_nodes(op[1], stop_upon_closing_brace=(tuple(op[2]) if isinstance(op[2], list) else op[2]))
+            elif op[0] == 'group': w.get_latex_braced_group(op[1], brace_type=op[2])
+            elif op[0] == 'opt': w.get_latex_maybe_optional_arg(op[1])
+            elif op[0] == 'token': w.get_token(op[1], include_brace_chars=[tuple(op[2])])
+            elif op[0] == 'expr': w.get_latex_expression(op[1])
+        except Exception:
+            pass
+        if snap(root) != before:
+            return {'out': None, 'sig': 'walker', 'fail': {'kind': 'parent-changed', 'detail': 'walker call %r on %r altered the state returned earlier by make_parsing_state(): %s -> %s'
+                                                             % (op, s, before[0], psdesc.show_fields(root))}}
+        states.append(('make_parsing_state() after %r' % (op,), w.make_parsing_state()))
+        states.append(('sub_context(enable_comments=False) after %r' % (op,), root.sub_context(enable_comments=False)))
+        states.append(('make_parsing_state(in_math_mode=True) after %r' % (op,), w.make_parsing_state(in_math_mode=True)))
+    for name, ps in states:
+        fresh = ParsingState(**dict(ps.get_fields()))
+        if psdesc.show_tables(fresh) != psdesc.show_tables(ps):
+            return {'out': None, 'sig': 'walker', 'fail': {'kind': 'derived-tables-differ-from-fresh', 'detail': '%s on a walker over %r: derived %s ; fresh %s'
+                                                             % (name, s, psdesc.show_tables(ps), psdesc.show_tables(fresh))}}
+        for pr in PROBES + ['[a]', '(b)', '<c>', 'x]']:
+            a = tokens(ps, pr); b = tokens(fresh, pr)
+            if a != b:
+                return {'out': None, 'sig': 'walker', 'fail': {'kind': 'derived-tokenizes-differently', 'detail': '%s on a walker over %r, probe %r: derived %s ; fresh %s' % (name, s, pr, a, b)}}
+    return {'out': None, 'fail': None, 'sig': 'walker:%d' % len(c['wops'])}
+
 def run_impl(c):
     from pylatexenc.latexnodes import ParsingState
+    if c.get('wops') is not None:
+        return run_walker(c)
     root = psdesc.make_ps(c['root'])
     ps = root
     fail = None
